@@ -9,6 +9,7 @@
 import Tranp.Lemmas.Lexer
 import Tranp.Lemmas.LexerShape
 import Tranp.Lemmas.LexerTail
+import Tranp.Lemmas.LexerTight
 import Tranp.Generated.TokenDef
 import Tranp.Generated.LexerShape
 
@@ -609,6 +610,44 @@ example :
 
 example : (tokenize pyDef ['x',' ','-','=']).map (List.map simplify) = (tokenize pyDef ['x',' ','-','=','\n']).map (List.map simplify) :=
   layout_tail_by_position pyDef pyDef_layoutReady ['x',' ','-','='] [] ['\n'] (by decide +kernel) (by decide +kernel)
+
+/-! ### a comment directly after a token -/
+
+/-- the side condition of the next theorems for the generated definitions: `#` occurs in no look-ahead pattern of the Python
+    definition after the first character; the grammar definition's `//` does continue a `/` (there the rewrite is not a
+    layout change: `a /` + `// c` reads `a //` + `/ c`) -/
+theorem pyDef_tailFree : tailFree pyDef '#' = true ∧ tailFree gramDef '/' = false := by decide +kernel
+
+/-- **END TO END: a comment directly after a token.** After the whole tokens `a`, at a line end, inserting a comment without
+    a blank in front of it leaves `Tokenizer.parse` unchanged up to source maps, when the first character of the opener
+    occurs in no look-ahead pattern after that pattern's first character. (A minus sign or a comment as last token of `a` is
+    excluded by `TokPrefix`.) -/
+theorem layout_chars_comment_tight (d : TokenDef) (hr : layoutReady d) (a body r : Str) (p : Str × Str) (ta L : List (Nat × Str))
+    (hfree : ∀ ch, p.1.head? = some ch → tailFree d ch = true)
+    (hf : firstOpen d.comment (p.1 ++ body ++ r) 0 = .ok p) (hb : '\n' ∉ body) (hnl : nlOrEnd r = true)
+    (hpre : TokPrefix d r (p.1 ++ body ++ r) a ta) (hL : lexS d r = .ok L) :
+    (tokenize d (a ++ r)).map (List.map simplify) = (tokenize d (a ++ (p.1 ++ body ++ r))).map (List.map simplify) :=
+  layout_comment_tight hr a body r p hfree hf hb hnl hpre hL
+
+/-- **Comment directly after a token, by position** (checker `commentTightOK`, driver op `lay.tcomment`). -/
+theorem layout_comment_tight_by_position (d : TokenDef) (hr : layoutReady d) (src : Str) (pos : Nat) (body : Str) (p : Str × Str)
+    (h : commentTightOK d src pos body p = true) :
+    (tokenize d src).map (List.map simplify) = (tokenize d (insertAt src pos (p.1 ++ body))).map (List.map simplify) :=
+  layout_comment_tight_at hr src pos body p h
+
+/-- non-vacuity (decided in the kernel): `x = 1` + `# c` before the newline, after a closing bracket, after a combined symbol
+    at the end of the input; refused after a minus sign (it would become unary), inside a line, and for the grammar definition -/
+example :
+    let src : Str := ['x',' ','=',' ','1','\n','f','(',')']
+    (commentTightOK pyDef src 5 [' ','c'] (['#'], ['\n']) && commentTightOK pyDef src 9 [] (['#'], ['\n']) &&
+      commentTightOK pyDef ['a',' ','<','='] 4 ['!'] (['#'], ['\n']) &&
+      !commentTightOK pyDef ['a',' ','-'] 3 ['c'] (['#'], ['\n']) && !commentTightOK pyDef src 3 ['c'] (['#'], ['\n']) &&
+      !commentTightOK gramDef ['a',' ','/'] 3 ['c'] (['/','/'], ['\n'])) = true := by
+  decide +kernel
+
+example : (tokenize pyDef ['x','=','1','\n','y']).map (List.map simplify)
+    = (tokenize pyDef ['x','=','1','#',' ','c','\n','y']).map (List.map simplify) :=
+  layout_comment_tight_by_position pyDef pyDef_layoutReady ['x','=','1','\n','y'] 3 [' ','c'] (['#'], ['\n']) (by decide +kernel)
 
 /-! ### the control flow of the code as generated data (translate/gen_lexer_shape.py → Generated/LexerShape.lean) -/
 
